@@ -34,15 +34,19 @@ ONLY to recognise known findings (to predict the defective observation), never t
   'S7'  an unquoted `#` is treated as the start of a comment by the tokenizer: inside a token it ends the token and
         the rest of the line is dropped; where a token would start, the rest of the line INCLUDING the line end is
         dropped, so that the instruction continues with the next non-empty line.
-  'S8'  whether references are substituted is decided for a whole token by its first character: a token starting
-        with `'` is not substituted at all, every other token is substituted everywhere (also in its hard quoted
-        fragments).
+  'S8'  the fragments of a token are not honoured: the quotes are removed and the token is treated as a whole
+        according to its first character: a token starting with `'` is not substituted at all, every other token is
+        substituted everywhere (also in its hard quoted fragments); a token that starts naked and whose text without
+        the quotes is one reference (`@[L]@""`) is taken as a whole-token SYMBOL-REFERENCE (a list is spliced).
+  'H1'  a here-document MARKER is accepted only if it consists of ASCII letters, digits, `_` and `-` (manual: "Any
+        single-word string may be used as MARKER"); other markers make the instruction a syntax error.
 """
 import re
 
 RESERVED_WORDS = ('(', ')', '[', ']', '{', '}', '=', '|', ':', '!', '&&', '||')
 SYMBOL_REFERENCE = re.compile(r'@\[([A-Za-z0-9_]+)\]@')
 _BLANK = ' \t'
+_H1_MARKER = re.compile(r'[A-Za-z0-9_-]+')
 
 NAKED, SOFT, HARD = 'naked', 'soft', 'hard'
 
@@ -139,22 +143,25 @@ def token_parts(tok, defects=frozenset()):
 
 class Elem:
     """A list element (or a single string): parts + whether it is a naked whole-token symbol reference."""
-    __slots__ = ('parts', 'whole_ref', 'src')
+    __slots__ = ('parts', 'whole_ref', 'form')
 
-    def __init__(self, parts, whole_ref=None, src=None):
+    def __init__(self, parts, whole_ref=None, form='string'):
         self.parts = parts
         self.whole_ref = whole_ref
-        self.src = src
+        self.form = form  # 'string' | ':>' | '<<'
 
 
 def _elem_of_token(text, tok, defects):
     whole = None
     w = tok.naked_word()
+    if w is None and 'S8' in defects and tok.fragments[0][0] == NAKED:
+        # S8 emulation: quotes removed, token treated as a whole according to its first character
+        w = ''.join(s for _, s in tok.fragments)
     if w is not None:
         m = SYMBOL_REFERENCE.fullmatch(w)
         if m:
             whole = m.group(1)
-    return Elem(token_parts(tok, defects), whole, text[tok.start:tok.end])
+    return Elem(token_parts(tok, defects), whole)
 
 
 # -------------------------------------------------------------------------------------------------
@@ -217,7 +224,8 @@ class Cursor:
 
     def _string_of(self, tok):
         w = tok.naked_word()
-        if w is not None and w in RESERVED_WORDS:
+        if w is not None and w in RESERVED_WORDS and not tok.cut:
+            # (S7 emulation: what is left of a token cut at `#` is taken as a string even if it is a reserved word)
             raise ReadError('syntax', 'reserved-word', tok.start)
         return _elem_of_token(self.text, tok, self.defects)
 
@@ -229,6 +237,8 @@ class Cursor:
         return Elem(split_references(s), None, ':>')
 
     def _here_document(self, marker, tok):
+        if 'H1' in self.defects and not _H1_MARKER.fullmatch(marker):
+            raise ReadError('syntax', 'not-a-here-document', tok.start)
         # the rest of the header line must be empty
         if self.next_token() is not None:
             raise ReadError('syntax', 'here-doc-header-superfluous', tok.start)
@@ -278,7 +288,7 @@ class Cursor:
             if w == ')':
                 self.pos = save
                 return elems
-            if w == '\\':
+            if w == '\\' and not tok.cut:
                 # "An unquoted \ at END-OF-LINE makes the list continue on the next line"
                 e = self.eol_pos()
                 if self.text[self.pos:e].strip(' \t\r') == '':
@@ -365,7 +375,7 @@ def _parse_text_source(c):
         if tok is None:
             raise ReadError('syntax', 'missing-text-source', c.pos)
     e = c._rich_string_of(tok)
-    if e.src in (':>', '<<'):
+    if e.form in (':>', '<<'):
         if paren:
             raise ReadError('syntax', 'missing-)', c.pos)
         c.to_next_line()
@@ -396,7 +406,7 @@ def _parse_program(c):
         raise ReadError('syntax', 'unsupported-program-form-in-model', c.pos)
     pgm = c.string()
     args = c.list_(program_arguments=True)
-    if args and args[-1].src == '<<':
+    if args and args[-1].form == '<<':
         if paren:
             raise ReadError('syntax', 'missing-)', c.pos)
         c.to_next_line()
@@ -444,7 +454,7 @@ def interpret(case_text, probe_path=None, defects=frozenset()):
                 ins.name = m.group(2)
                 if m.group(1) == 'string':
                     ins.value = c.rich_string()
-                    if ins.value.src in (':>', '<<'):
+                    if ins.value.form in (':>', '<<'):
                         c.to_next_line()
                     else:
                         c.expect_end_of_line()
